@@ -48,6 +48,13 @@ DIRECTED = [
     ([{"pids": [11, 12, 13], "bg": False}],
      [("launch", {"d": 1}), ("ctrlz", {}), ("jobs", {}), ("extcont", {"p": 11}), ("jobs", {}), ("bg", {"id": 1}), ("jobs", {}), ("extkill", {"p": 12}),
       ("jobs", {}), ("fg", {"id": 1}), ("ctrlc", {}), ("jobs", {})]),
+    # a member that was stopped (and seen stopped) dies while its sibling runs on: the job is Running, with one process
+    ([{"pids": [11, 12], "bg": True}],
+     [("launch", {"d": 1}), ("extstop", {"p": 11}), ("jobs", {}), ("extkill", {"p": 11}), ("jobs", {}), ("jobs", {}), ("extstop", {"p": 12}), ("jobs", {}),
+      ("extkill", {"p": 12}), ("jobs", {}), ("jobs", {})]),
+    ([{"pids": [11, 12, 13], "bg": False}],
+     [("launch", {"d": 1}), ("extstop", {"p": 12}), ("extexit", {"p": 11}), ("extkill", {"p": 12}), ("ctrlz", {}), ("jobs", {}), ("fg", {"id": 1}), ("ctrlc", {}),
+      ("jobs", {})]),
     # an older job ends while a younger one lives on, then a new job starts: it takes the free slot and the living job stays listed
     ([{"pids": [11], "bg": True}, {"pids": [21, 22], "bg": True}, {"pids": [31], "bg": True}],
      [("launch", {"d": 1}), ("launch", {"d": 2}), ("extexit", {"p": 11}), ("jobs", {}), ("jobs", {}), ("launch", {"d": 3}), ("jobs", {}),
